@@ -696,7 +696,18 @@ fn gen_component(rng: &mut Rng, sw: &Swarm, index: usize) -> Component {
     let mut words: Vec<&str> = WORDS.to_vec();
     rng.shuffle(&mut words);
     words.truncate(n);
-    let names: Vec<String> = words.iter().map(|w| format!("{prefix}{w}")).collect();
+    // the definition KEYS of a component follow one spelling; the generated type
+    // names are their Pascal-case form in every case
+    let style = *rng.pick(&[0u8, 0, 0, 0, 0, 0, 1, 1, 2, 3]);
+    let names: Vec<String> = words
+        .iter()
+        .map(|w| match style {
+            1 => format!("{}_{}", prefix.to_lowercase(), w.to_lowercase()),
+            2 => format!("{}-{}", prefix.to_lowercase(), w.to_lowercase()),
+            3 => format!("{}{w}", prefix.to_lowercase()),
+            _ => format!("{prefix}{w}"),
+        })
+        .collect();
     let mut defs: BTreeMap<String, Value> = BTreeMap::new();
     let mut cx = Ctx {
         sw,
@@ -821,6 +832,24 @@ fn add_defaults(rng: &mut Rng, sw: &Swarm, schema: &mut Value, defs: &Defs, top:
     }
 }
 
+/// The type name typify derives from a definition key of the generator
+/// (`ka_alpha`, `ka-alpha`, `kaAlpha`, `KaAlpha` -> `KaAlpha`).
+pub fn pascal(key: &str) -> String {
+    let mut out = String::new();
+    let mut up = true;
+    for c in key.chars() {
+        if c == '_' || c == '-' {
+            up = true;
+        } else if up {
+            out.extend(c.to_uppercase());
+            up = false;
+        } else {
+            out.push(c);
+        }
+    }
+    out
+}
+
 fn gen_settings(rng: &mut Rng, sw: &Swarm, comps: &[Component]) -> SettingsDesc {
     let mut s = SettingsDesc::default();
     if !sw.settings_variety {
@@ -843,7 +872,8 @@ fn gen_settings(rng: &mut Rng, sw: &Swarm, comps: &[Component]) -> SettingsDesc 
         // patch one generated struct/enum definition: rename and/or derive
         let all: Vec<&(String, Value)> = comps.iter().flat_map(|c| c.defs.iter()).collect();
         if !all.is_empty() {
-            let (name, _) = rng.pick(&all);
+            let (key, _) = rng.pick(&all);
+            let name = &pascal(key);
             s.patches.push(PatchDesc {
                 name: name.clone(),
                 rename: match rng.below(6) {
@@ -1160,7 +1190,7 @@ pub fn make_variant(rng: &mut Rng, relation: &str, base: &[Op]) -> Vec<Op> {
                     if let Op::AddRefTypes { defs, .. } = op {
                         let mut groups: Vec<(String, Vec<(String, Value)>)> = Vec::new();
                         for (n, s) in defs {
-                            let p: String = n.chars().take(2).collect();
+                            let p: String = n.chars().take(2).collect::<String>().to_lowercase();
                             if let Some(g) = groups.iter_mut().find(|g| g.0 == p) {
                                 g.1.push((n.clone(), s.clone()));
                             } else {
